@@ -41,6 +41,61 @@ func isAppend(in ssa.Instruction) *ssa.Call {
 	return isBuiltinCall(in, "append")
 }
 
+// appendDest: the destination slice of an append, or of a call to an in-module helper that
+// appends to one of its parameters and returns the result (e.g. appendX(dst, ...)).
+func appendDest(in ssa.Instruction) (ssa.Value, *ssa.Call) {
+	if cl := isAppend(in); cl != nil {
+		return cl.Call.Args[0], cl
+	}
+	cl, ok := in.(*ssa.Call)
+	if !ok {
+		return nil, nil
+	}
+	callee := cl.Call.StaticCallee()
+	if callee == nil || len(callee.Blocks) == 0 || !InModule(callee) {
+		return nil, nil
+	}
+	if i := appendsIntoParam(callee); i >= 0 && i < len(cl.Call.Args) {
+		return cl.Call.Args[i], cl
+	}
+	return nil, nil
+}
+
+var appendParamCache = map[*ssa.Function]int{}
+
+// appendsIntoParam: index of a slice parameter p such that the function returns append(p..., ...), else -1.
+func appendsIntoParam(fn *ssa.Function) int {
+	if v, ok := appendParamCache[fn]; ok {
+		return v
+	}
+	appendParamCache[fn] = -1
+	res := -1
+	for _, rt := range returnsOf(fn) {
+		for _, r := range rt.Results {
+			if _, isSlice := r.Type().Underlying().(*types.Slice); !isSlice {
+				continue
+			}
+			for x := range backClosure(r, nil) {
+				cl, ok := x.(*ssa.Call)
+				if !ok || isAppend(cl) == nil {
+					continue
+				}
+				for y := range backClosure(cl.Call.Args[0], nil) {
+					if p, ok := y.(*ssa.Parameter); ok {
+						for i, q := range fn.Params {
+							if q == p {
+								res = i
+							}
+						}
+					}
+				}
+			}
+		}
+	}
+	appendParamCache[fn] = res
+	return res
+}
+
 // loopFreshness reports (a) appends inside a loop whose destination buffer was allocated outside
 // the loop and whose result is stored into a record or appended as an element inside the loop,
 // (b) decoder calls inside a loop whose target object was allocated outside the loop.
@@ -49,11 +104,19 @@ func loopFreshness(fn *ssa.Function) []freshReport {
 	for _, l := range natLoops(fn) {
 		for b := range l.blocks {
 			for _, in := range b.Instrs {
-				if cl := isAppend(in); cl != nil {
+				if dest, cl := appendDest(in); cl != nil {
 					var outside ssa.Instruction
-					for _, o := range bufferOrigins(cl.Call.Args[0]) {
+					for _, o := range bufferOrigins(dest) {
 						if !inLoopBlocks(l, o.Block()) {
 							outside = o
+						}
+					}
+					// re-slicing the loop-carried slice (x = append(x[:0], ...)) reuses the previous iteration's storage
+					if outside == nil {
+						if sl, ok := dest.(*ssa.Slice); ok && sl.High != nil {
+							if ph, ok := sl.X.(*ssa.Phi); ok && ph.Block() == l.header {
+								outside = ph
+							}
 						}
 					}
 					if outside == nil {
@@ -84,8 +147,13 @@ func loopFreshness(fn *ssa.Function) []freshReport {
 										changed = true
 									}
 								case *ssa.Call:
-									if a := isAppend(x); a != nil && a.Call.Args[0] == v && !chain[a] {
+									if d, a := appendDest(x); a != nil && d == v && !chain[a] {
 										chain[a] = true
+										changed = true
+									}
+								case *ssa.Extract:
+									if !chain[x] {
+										chain[x] = true
 										changed = true
 									}
 								}
@@ -109,7 +177,7 @@ func loopFreshness(fn *ssa.Function) []freshReport {
 								switch x.Addr.(type) {
 								case *ssa.FieldAddr, *ssa.IndexAddr:
 									// the accumulate idiom x.f = append(x.f, e) updates the location the destination came from
-									if ld, ok := stripSliceOps(cl.Call.Args[0]).(*ssa.UnOp); ok && Expr(ld.X) == Expr(x.Addr) {
+									if ld, ok := stripSliceOps(dest).(*ssa.UnOp); ok && Expr(ld.X) == Expr(x.Addr) {
 										continue
 									}
 									out = append(out, freshReport{r, "buffer", fmt.Sprintf("a slice built by append on a buffer allocated outside the loop (%s) is stored into %s", Expr(outside.(ssa.Value)), Expr(x.Addr))})
